@@ -275,5 +275,47 @@ def P_recip_retry(l):
     return prog
 
 
-PROGRAMS = dict(recip_retry=P_recip_retry, fxp_ops=P_fxp_ops, bit_ops=P_bit_ops, convert_ops=P_convert_ops, field_ops=P_field_ops, random_ops=P_random_ops,
+def P_pipeline(l):
+    """Pipelined program (C08): operations are STARTED on operands that have not arrived yet (inputs dealt by different parties), the main program then
+    awaits something unrelated and goes on issuing operations, and only at the end everything is opened.  Under an asynchronous schedule the
+    coroutines of the pending operations are resumed at different points of the main program in different parties: any coroutine that takes its
+    message labels late (without an own program counter) then desynchronises.  No oracle: the result is compared across schedules and parties."""
+    async def prog(rt, seed):
+        rnd = pyrandom.Random(seed)
+        m = len(rt.parties)
+        secint = rt.SecInt(l + 8); secfxp = rt.SecFxp(2 * l, l // 2 + 2)
+        v = [rnd.randrange(-20, 21) for _ in range(6)]
+        # operands dealt by three different parties (their shares arrive at different times)
+        a0 = rt.input([secint(v[0]), secint(v[1])], senders=0)
+        b0 = rt.input([secint(v[2]), secint(v[3])], senders=m - 1)
+        c0 = rt.input([secfxp(v[4] / 4), secfxp(v[5] / 8), secfxp(1.5), secfxp(-0.25)], senders=(m // 2))
+        pending = []
+        pending.append(rt.gauss([[c0[0], c0[1]], [c0[2], c0[3]]], c0[0], [c0[1], c0[2]], [c0[3], c0[0]]))      # matrix (list of lists)
+        pending.append(rt.matrix_prod([[a0[0], a0[1]]], [[b0[0]], [b0[1]]]))
+        pending.append([rt.in_prod(a0, b0), rt.prod([a0[0], b0[0], a0[1]]), rt.sgn(a0[0] - b0[1]), rt.lsb(b0[0]), a0[1] % 3])
+        pending.append(rt.scalar_mul(c0[2], [c0[0], c0[1]]) + rt.schur_prod([c0[0], c0[1]], [c0[2], c0[3]]))
+        pending.append([rt.trunc(c0[0] * 8), rt.if_else(a0[0] < b0[0], a0[1], b0[1]), rt.max(a0 + b0), rt.min(c0)])
+        # the main program awaits something unrelated in the middle ...
+        mid = await rt.output(a0[0] + b0[0])
+        # ... and goes on issuing operations, among them inputs and outputs addressed to single parties
+        d0 = rt.input(secint(mid % 7), senders=(1 % m))
+        pending.append([d0 * a0[0], rt.convert(d0, secfxp) * c0[1], rt.is_zero(d0 - (mid % 7))])
+        pending.append(rt.sorted([a0[0], b0[0], a0[1], b0[1], d0]))
+        one = await rt.output(d0 + 1, receivers=0)
+        pending.append(rt.to_bits(b0[1] + 64, 8)[:3] + [rt.from_bits(rt.to_bits(a0[0] + 64, 8))])
+        flat = []
+        def walk(x):
+            if isinstance(x, (list, tuple)):
+                for y in x: walk(y)
+            else: flat.append(x)
+        walk(pending)
+        ints = [z for z in flat if isinstance(z, secint)]; fxps = [z for z in flat if isinstance(z, secfxp)]          # output assumes one type per list
+        assert len(ints) + len(fxps) == len(flat)
+        outs = list(await rt.output(ints)) + list(await rt.output(fxps))
+        got = [mid, None if one is None else int(one)] + [float(o) if isinstance(o, float) else int(o) for o in outs]
+        return [got[0]] + got[2:], [got[0]] + got[2:], [], None, tuple(v)          # party 0 alone receives `one`: not part of the common result
+    return prog
+
+
+PROGRAMS = dict(pipeline=P_pipeline, recip_retry=P_recip_retry, fxp_ops=P_fxp_ops, bit_ops=P_bit_ops, convert_ops=P_convert_ops, field_ops=P_field_ops, random_ops=P_random_ops,
                 seclist_ops=P_seclist_ops, gcd_ops=P_gcd_ops)
